@@ -160,6 +160,7 @@ def gen_schema(c, opts=None):
     if o["subscription"]:
         sname = "Subscription" if qname == "Query" else "RootS"
         schema["roots"]["subscription"] = sname
+        roots.append(sname)
     all_obj = roots + obj_names  # index order for well-foundedness
 
     def gen_args():
@@ -540,6 +541,9 @@ class DocGen:
         """location: FIELD | FRAGMENT_SPREAD | INLINE_FRAGMENT | QUERY | MUTATION | SUBSCRIPTION | FRAGMENT_DEFINITION"""
         c = self.c
         out = []
+        if getattr(self, "_suppress_once", False):
+            self._suppress_once = False
+            return out
         if not self.o["directives"]:
             return out
         if location in ("FIELD", "FRAGMENT_SPREAD", "INLINE_FRAGMENT"):
@@ -675,6 +679,18 @@ class DocGen:
             node["sels"] = self.selset(nt, depth + 1, entry["scope"], used, ufrags, avail_frags)
         return node
 
+    def subscription_root(self, root, scope, used, ufrags, frags):
+        """exactly one root field (possibly inside inline fragments); never skipped"""
+        c = self.c
+        fname = c.choice(list(fields_of(self.schema, root)))
+        self._suppress_once = True  # the root field itself carries no directive (it must not be skipped)
+        node = self.field(root, fname, 0, scope, used, ufrags, frags)
+        sel = node
+        for _ in range(c.weighted([(6, 0), (3, 1), (1, 2)])):
+            sel = {"k": "inline", "on": c.choice([None, root]), "dirs": [], "sels": [sel], "id": self.nid()}
+            self.stat("subscription_root_in_inline")
+        return [sel]
+
     # ---------------------------------------------------------------- definitions
     def fragment(self, index, avail_frags):
         c = self.c
@@ -708,7 +724,10 @@ class DocGen:
             used, ufrags = set(), set()
             scope = Scope()
             self.nodes = 0
-            sels = self.selset(root, 0, scope, used, ufrags, frags)
+            if otype == "subscription":
+                sels = self.subscription_root(root, scope, used, ufrags, frags)
+            else:
+                sels = self.selset(root, 0, scope, used, ufrags, frags)
             dirs = self.directives(otype.upper(), used)
             op = {"k": "op", "type": otype, "name": None if anonymous else "Op%d" % i, "dirs": dirs, "sels": sels, "id": self.nid(), "_used": used, "_ufrags": ufrags}
             if anonymous and otype == "query" and not dirs and c.maybe(50):
